@@ -758,6 +758,37 @@ def _apply_edit(prim, kind, p, U, ed):
             U = M @ U @ S
         else:
             U = M @ U
+    elif op == "trade":
+        # two parameters exchange their values, written back to back with NO read in between:
+        # the multiset of parameter values is unchanged, which parameter holds which is not
+        if kind in ("Cylinder", "Capsule"):
+            r, h = p["radius"], p["height"]
+            P.radius = h
+            P.height = r
+            p["radius"], p["height"] = h, r
+        elif kind == "Box":
+            i, j = ed["index"], (ed["index"] + 1) % 3
+            e = list(p["extents"])
+            if ed.get("inplace"):
+                P.extents[i] = e[j]
+                P.extents[j] = e[i]
+            else:
+                e2 = list(e)
+                e2[i], e2[j] = e[j], e[i]
+                P.extents = np.array(e2, dtype=np.float64)
+            e[i], e[j] = e[j], e[i]
+            p["extents"] = e
+        elif kind == "Sphere":
+            # radius and subdivisions hold numbers that compare (and hash) equal across int / float
+            r, k = p["radius"], p["subdivisions"]
+            P.radius = float(k + 1)
+            P.subdivisions = int(round(r)) % 4
+            p["radius"], p["subdivisions"] = float(k + 1), int(round(r)) % 4
+        else:
+            raise ValueError("trade is not defined for " + kind)
+    elif op == "multi":
+        for sub in ed["edits"]:
+            p, U = _apply_edit(prim, kind, p, U, sub)
     else:
         raise ValueError(op)
     return p, U
@@ -1196,6 +1227,18 @@ def workload(run):
                 if mine():
                     emit({"fn": "convergence", "fn_inner": fn, "args": a, "placement": "none"})
         # ---- G. primitives x edit histories
+        if rounds == 1:
+            # seed-independent core: parameters trading values after everything / nothing was read
+            for kind, p0 in (("Cylinder", {"radius": 2.0, "height": 3.0, "sections": 12}),
+                             ("Capsule", {"radius": 1.0, "height": 4.0, "sections": 32}),
+                             ("Box", {"extents": [1.0, 2.0, 3.0]}),
+                             ("Sphere", {"radius": 2.0, "subdivisions": 0})):
+                for pre in (list(PRIM_READS), []):
+                    for extra in ({"inplace": True}, {"inplace": False}) if kind == "Box" else ({},):
+                        if mine():
+                            emit({"fn": "primitive", "kind": kind, "params": dict(p0), "U": places[1][1].tolist(),
+                                  "edits": [dict({"op": "trade", "index": 0, "pre": pre}, **extra),
+                                            {"op": "trade", "index": 1, "pre": ["vertices"]}], "rseed": 0})
         nhist = 40 if quick else 80
         for _ in range(nhist):
             if run.out_of_time(0.93):
@@ -1243,8 +1286,12 @@ def _random_primitive_spec(run, rnd):
         if kind == "Extrusion":
             ops += ["height", "polygon", "slide"] * 2
             ops = [o for o in ops if o != "apply_scale"]
+        else:
+            ops += ["trade"] * 3
         op = rnd.choice(ops)
         ed = {"op": op}
+        if op == "trade":
+            ed["index"], ed["inplace"] = rnd.randrange(3), rnd.random() < 0.5
         if op in ("radius",):
             ed["value"] = U(0.2, 4)
         elif op == "height":
